@@ -59,7 +59,7 @@ func run(c *Ctx) error {
 	for _, k := range []string{"corpus-vote-detach", "corpus-cb-unspend-down", "corpus-vote-unspend-down"} {
 		cases = append(cases, &wsim.Case{ID: len(cases), Seed: 1, Kind: k})
 	}
-	n := c.N(140, 700)
+	n := c.N(100, 400)
 	kinds := []string{"random", "random", "votes", "votes", "deep", "down", "down"}
 	for i := 0; i < n; i++ {
 		cases = append(cases, &wsim.Case{ID: len(cases), Seed: c.Rng.Next(), Kind: kinds[c.Rng.Intn(len(kinds))]})
